@@ -783,9 +783,26 @@ func (env *SpecEnv) evalModLoc(e *SExpr) []modLoc {
 					return []modLoc{{kind: "allkey", key: fieldKey(t, ""), T: t, text: e.String()}}
 				}
 			case "allelems":
+				// allelems(T): the elements of every slice with element type T; allelems(expr) with a
+				// slice-typed expression: the elements of every slice of that expression's type
+				if a := e.Args[1]; a.Op != "id" {
+					if v := env.eval(a); v.T != nil {
+						if sl, ok := v.T.Underlying().(*types.Slice); ok {
+							return []modLoc{{kind: "allelems", T: sl.Elem(), text: e.String()}}
+						}
+					}
+				}
 				t := env.resolveType(e.Args[1].String())
 				return []modLoc{{kind: "allelems", T: t, text: e.String()}}
 			case "allentries":
+				// allentries(T) / allentries(expr): the entries of every map of type T (of the expression's type)
+				if a := e.Args[1]; a.Op != "id" {
+					if v := env.eval(a); v.T != nil {
+						if _, ok := v.T.Underlying().(*types.Map); ok {
+							return []modLoc{{kind: "allmap", T: v.T, text: e.String()}}
+						}
+					}
+				}
 				t := env.resolveType(e.Args[1].String())
 				return []modLoc{{kind: "allmap", T: t, text: e.String()}}
 			}
